@@ -151,7 +151,10 @@ class BasePath(safe_str.safe_string):
 
     def split(self):
         # This is guaranteed to work since `suffix` is normalized.
-        return self.suffix.split(posixpath.sep) if self.suffix else []
+        # (Strip the trailing separator of a filesystem or drive root so that
+        # it's a prefix of its children.)
+        return (self.suffix.rstrip(posixpath.sep).split(posixpath.sep)
+                if self.suffix else [])
 
     def basename(self):
         return posixpath.basename(self.suffix)
